@@ -84,3 +84,7 @@ impl ops::IndexMut<thread::Id> for VersionVec {
         self.versions.index_mut(index.as_usize())
     }
 }
+
+#[cfg(loom_verif)]
+#[path = "/verif/hooks/vv_verif.rs"]
+pub(crate) mod verif;
